@@ -70,6 +70,9 @@ ATTR = [
     (r"^spurious-cancel", ["C06"]),
     (r"^cancel-", ["C05", "C08", "C09"]),
     (r"^tick-over-eligible-job$", ["C12", "C03"]),
+    (r"^tick-over-eligible-job-window$", ["C12", "C07", "C03"]),
+    # the window of a nested scheduler is about its own jobs only
+    (r"^tick-over-eligible-job-nested-window$", ["C12", "C07", "C10", "C03"]),
     (r"^tick-over-unprocessed$", ["C12", "C09", "C05"]),
     (r"^tick-over-deadline$", ["C08"]),
     (r"^tick-over-shutdown-deadline$", ["C13"]),
@@ -81,10 +84,11 @@ ATTR = [
     (r"^tick-(target|no-alarm|after-end)", ["C08", "C12", "C13"]),
     (r"^time-mismatch-(start|run-begin)$", ["C12"]),
     (r"^time-mismatch-", ["C11"]),
-    (r"^shutdown-swallows-cancel-parent-aborted-critical$", ["C13", "C11", "C05"]),
-    (r"^shutdown-swallows-cancel-parent-aborted-timeout$", ["C13", "C11", "C08"]),
-    (r"^shutdown-swallows-cancel-parent-aborted-success$", ["C13", "C11", "C09"]),
-    (r"^shutdown-swallows-cancel", ["C13", "C11"]),
+    # (the cancelled nested run then ends as if it had finished: it is reported done, C14)
+    (r"^shutdown-swallows-cancel-parent-aborted-critical$", ["C13", "C11", "C05", "C14"]),
+    (r"^shutdown-swallows-cancel-parent-aborted-timeout$", ["C13", "C11", "C08", "C14"]),
+    (r"^shutdown-swallows-cancel-parent-aborted-success$", ["C13", "C11", "C09", "C14"]),
+    (r"^shutdown-swallows-cancel", ["C13", "C11", "C14"]),
     (r"^shutdown-repeated$", ["C13"]),
     (r"^shutdown-while-live$", ["C13", "C11"]),
     (r"^shutdown-in-main$", ["C13", "C02", "C09"]),
@@ -92,6 +96,8 @@ ATTR = [
     (r"^sshut", ["C13"]),
     (r"^shut-while-sibling-live$", ["C13", "C11"]),
     (r"^shut-", ["C13"]),
+    (r"^verdict-.*-claims-success-spec-timeout", ["C04", "C10", "C08", "C02"]),
+    (r"^verdict-.*-claims-success-spec-critical", ["C04", "C10", "C05", "C02"]),
     (r"^verdict-.*-claims-success-spec-", ["C04", "C10", "C02"]),
     (r"^verdict-.*(-claims-timeout-spec-|-spec-timeout$)", ["C04", "C10", "C08"]),
     (r"^verdict-", ["C04", "C10"]),
